@@ -204,8 +204,10 @@ func (p *Parser) parseDeclarationList() GrammarType {
 	// IE hack: *color:red;
 	if p.tt == DelimToken && p.data[0] == '*' {
 		tt, data := p.popToken(false)
-		p.tt = tt
-		p.data = append(p.data, data...)
+		if tt != ErrorToken {
+			p.tt = tt
+			p.data = append(p.data, data...)
+		}
 	}
 
 	if p.tt == ErrorToken {
